@@ -89,9 +89,11 @@ class C17(Harness):
             b = choice("b", a + 2, Ln)
             inp["intervals"] = [[a, b], [0, Ln]]
             return inp
-        ne = choice("ne", 1, 3 if k != "column-ensemble" else 2)
+        ne = choice("ne", 1, 3)
         nk = choice("nk", 2, 3) if k != "tsf-regressor" else 1
         inp["labels"] = choice("labels", 0, 2)
+        if k in ("tsf-proba", "tsf-regressor"):
+            inp["n_jobs"] = choice("n_jobs", 1, 2)  # the number of jobs must not change the average (2 does not divide 3 trees)
         if k == "column-ensemble":
             inp["dup_names"] = bool(ctx.fresh_bool("dup_names"))
             inp["shared_estimator"] = inp["labels"] == 1  # (tied to the label-type choice to keep the path count)
@@ -174,7 +176,7 @@ class C17(Harness):
 
             intervals = [np.array([[0, 2], [1, Ln]]) for _ in range(ne)]
             if k in ("tsf-proba", "tsf-regressor"):
-                me = types.SimpleNamespace(check_is_fitted=lambda: None, series_length=Ln, n_jobs=1, estimators_=[mk_tree(e) for e in range(ne)], intervals_=intervals, n_estimators=ne, n_classes=nk, classes_=np.array(labels[:nk]))
+                me = types.SimpleNamespace(check_is_fitted=lambda: None, series_length=Ln, n_jobs=inp.get("n_jobs", 1), estimators_=[mk_tree(e) for e in range(ne)], intervals_=intervals, n_estimators=ne, n_classes=nk, classes_=np.array(labels[:nk]))
                 if k == "tsf-proba":
                     C = W.load("sktime.classification.interval_based._tsf").TimeSeriesForestClassifier
                     me.predict_proba = lambda X: C.predict_proba(me, X)
